@@ -37,12 +37,12 @@ struct optpair {
 /* sorted neighbours give deltas 0 (11,11) 12 (first 12) 13 (1->14) 268 (14->282) 269 (14->283) 65535 (first 65535);
  * lengths 0/1/4/8/12 | 13/255/268 | 269/270(/1034); each length is inside the option's RFC range. */
 static const struct optpair ALPHA_Q[] = {
-    {1, 8},  {3, 1},    {11, 0},  {11, 13}, {11, 255},  {12, 1},    {14, 4},
-    {15, 0}, {35, 269}, {39, 12}, {60, 0},  {282, 268}, {283, 270}, {65535, 1},
+    {1, 8},  {3, 1},    {4, 1},   {11, 0},  {11, 13},   {11, 255},  {12, 1},
+    {14, 4}, {15, 0},   {35, 269}, {39, 12}, {282, 268}, {283, 270}, {65535, 1},
 };
 static const struct optpair ALPHA_T[] = {
-    {1, 8},   {3, 1},   {11, 0},  {11, 13},  {11, 255},  {12, 1},    {14, 4},    {15, 0},   {35, 269},
-    {39, 12}, {60, 0},  {282, 268}, {283, 270}, {65535, 1}, {1, 0},   {4, 1},     {4, 8},    {8, 255},
+    {1, 8},   {3, 1},   {4, 1},   {11, 0},   {11, 13},   {11, 255},  {12, 1},    {14, 4},   {15, 0},
+    {35, 269}, {39, 12}, {282, 268}, {283, 270}, {65535, 1}, {1, 0},  {60, 0},    {4, 8},    {8, 255},
     {15, 14}, {17, 2},  {23, 3},  {35, 1034}, {258, 1},  {270, 14},  {2049, 0},  {65000, 13},
 };
 #define NQ ((int)(sizeof ALPHA_Q / sizeof ALPHA_Q[0]))
@@ -61,7 +61,8 @@ framing_of(coap_proto_t p) {
 }
 
 static const uint32_t TOK_Q[] = {0, 1, 8, 12, 13, 14, 268, 269, 270};
-static const uint32_t TOK_T[] = {0, 1, 8, 12, 13, 14, 268, 269, 270, 65804};
+static const uint32_t TOK_T[] = {0, 1, 8, 12, 13, 14, 268, 269, 270, 4096, 65804};
+static size_t g_api_tok_max = 65804; /* longest token coap_add_token() accepts in this build, probed at start-up */
 static const uint32_t TOK_S[] = {0, 8, 13, 269};
 static const uint32_t PAY_Q[] = {0, 1, 13, 256, 1024};
 static const uint32_t PAY_S[] = {0, 13};
@@ -404,7 +405,7 @@ run_script(const struct script *s) {
       }
     } else {
       vxp_count(C_REFUSE_TOKEN, 1);
-      if (fits(s->max_size, rm_tok_wire_len(s->tok_len))) {
+      if (fits(s->max_size, rm_tok_wire_len(s->tok_len)) && s->tok_len <= g_api_tok_max) {
         failf(s, "refuse-unexplained:add_token", "coap_add_token(%u) returned 0 although it fits max_size %ld", s->tok_len,
               s->max_size);
         goto done;
@@ -413,8 +414,8 @@ run_script(const struct script *s) {
         char sig[160];
         snprintf(sig, sizeof sig, "refuse-disturbs:add_token:%s", d);
         coap_bin_const_t tk = coap_pdu_get_token(pdu);
-        failf(s, sig, "coap_add_token(%u) returned 0 (no room) but the accessor dump changed at %s: coap_pdu_get_token().length=%zu",
-              s->tok_len, d, tk.length);
+        failf(s, sig, "coap_add_token(%u) returned 0 (%s) but the accessor dump changed at %s: coap_pdu_get_token().length=%zu",
+              s->tok_len, s->tok_len > g_api_tok_max ? "longer than the API maximum" : "no room", d, tk.length);
         goto done; /* the PDU now claims a token it does not hold; nothing built on top of it is meaningful */
       }
     }
@@ -995,6 +996,20 @@ main(int argc, char **argv) {
       fprintf(stderr, "alphabet pair (%u,%u) outside RFC range\n", ALPHA_T[i].num, ALPHA_T[i].len);
       return 2;
     }
+  {
+    /* what does the API permit?  RFC 8974 allows 65804; the build may be compiled with less */
+    static const size_t probe[] = {65804, 4096, 8};
+    for (int i = 0; i < 3; i++) {
+      coap_pdu_t *p = coap_pdu_init(0, 1, 0, 0);
+      int r = coap_add_token(p, probe[i], g_tok);
+      coap_delete_pdu(p);
+      g_api_tok_max = probe[i];
+      if (r)
+        break;
+    }
+    vx_ev_int("api_max_token_length", (long long)g_api_tok_max);
+    vx_ev_int("api_COAP_MAX_OPT_as_compiled_in_harness", (long long)COAP_MAX_OPT);
+  }
   int fast_stage = 0;
   for (int i = 1; i < argc; i++)
     if (!strcmp(argv[i], "--stage-fast"))
@@ -1014,7 +1029,7 @@ main(int argc, char **argv) {
     h->kind = 1;
     h->nproto = np;
     h->toks = T ? TOK_T : TOK_Q;
-    h->ntok = T ? 10 : 9;
+    h->ntok = T ? 11 : 9;
     h->total = (uint64_t)np * 4 * 6 * 3 * (uint64_t)h->ntok * 4 * 2 * 2;
     /* forced Len */
     struct space *l = &spaces[ns++];
@@ -1025,6 +1040,8 @@ main(int argc, char **argv) {
     l->total = (uint64_t)np * 2 * 4 * 3 * 2 * (sizeof LEN_TARGETS / sizeof LEN_TARGETS[0]);
     /* all insertion orders */
     mk_opts_space(&spaces[ns++], "opts<=3of14", ALPHA_Q, NQ, 3, np, TOK_Q, 9, PAY_Q, 5);
+    if (T) /* the larger alphabet under the sanitizers too, with the four token-length forms */
+      mk_opts_space(&spaces[ns++], "opts<=3of26/asan", ALPHA_T, NT, 3, np, TOK_S, 4, PAY_Q, 5);
   } else {
     if (!T) {
       vx_ev_rule("fast stage runs in the thorough tier only");
